@@ -411,10 +411,25 @@ func stress(tg target, kindCode int, r *rand.Rand, goroutines, opsPer int, check
 	rec := &concRec{}
 	var wg sync.WaitGroup
 	var failures int64
-	deadline := time.AfterFunc(120*time.Second, func() {
-		fmt.Fprintln(os.Stderr, "DEADLOCK-WATCHDOG: stress on", tg.name, "did not finish in 120s")
-		os.Exit(3)
-	})
+	// deadlock watchdog, by PROGRESS not by total time (a loaded machine is slow, not stuck): the logical
+	// clock advances with every operation; no advance for 90 s means no goroutine got anywhere
+	stopWatch := make(chan struct{})
+	go func() {
+		last, since := atomic.LoadInt64(&rec.clock), time.Now()
+		for {
+			select {
+			case <-stopWatch:
+				return
+			case <-time.After(2 * time.Second):
+			}
+			if now := atomic.LoadInt64(&rec.clock); now != last {
+				last, since = now, time.Now()
+			} else if time.Since(since) > 90*time.Second {
+				fmt.Fprintln(os.Stderr, "DEADLOCK-WATCHDOG: stress on", tg.name, "made no progress for 90s (operations completed so far:", last/2, ")")
+				os.Exit(3)
+			}
+		}
+	}()
 	for g := 0; g < goroutines; g++ {
 		wg.Add(1)
 		seed := r.Int63()
@@ -472,7 +487,7 @@ func stress(tg target, kindCode int, r *rand.Rand, goroutines, opsPer int, check
 		}(g)
 	}
 	wg.Wait()
-	deadline.Stop()
+	close(stopWatch)
 	tg.close()
 	c := NewCase(1100).N(kindCode).I(failures).N(0)
 	ops := rec.ops
